@@ -512,4 +512,29 @@ theorem frame (s s' : Machine) (a v b : Nat) (ha : a < 65536) (hb : b < 65536) (
     subst hw
     exact fld_regs _ _ _ _ (fun _ => rfl) (fun _ => rfl) (fun _ => rfl) (fun _ => rfl) (fun _ => rfl) (fun _ => rfl) (fun e => by subst e; exact absurd ((rng_wx hrb).trans (rng_wx hra).symm) hne)
 
+/-- the machine after a read reads the same everywhere (only the OAM-bug flag may have been set) -/
+theorem read_keeps (s : Machine) (h : H) (a b : Nat) (hb : b < 65536) :
+    peek R (readEff h s a) b = peek R s b
+    ∧ (readEff h s a).timer = s.timer ∧ (readEff h s a).ppu = s.ppu
+    ∧ (readEff h s a).oam.dmaRunning = s.oam.dmaRunning := by
+  by_cases hh : h = .oam
+  · subst hh
+    simp only [readEff]
+    cases hc : Oam.cpuRead s.oam (BitVec.ofNat 16 a) with
+    | none => exact ⟨rfl, rfl, rfl, rfl⟩
+    | some p =>
+      have hsh := Oam.cpuRead_shape hc
+      have hfl : p.1.dmaRunning = s.oam.dmaRunning ∧ p.1.oam = s.oam.oam ∧ p.1.dma = s.oam.dma := by
+        rcases hsh with e | ⟨_, _, e⟩ <;> rw [e] <;> exact ⟨rfl, rfl, rfl⟩
+      refine ⟨?_, rfl, rfl, hfl.1⟩
+      unfold peek
+      have hrb := range_read hb
+      generalize route R b = rb at hrb
+      refine fld_oam _ _ _ _ (fun e => ?_) (fun _ => hfl.2.2)
+      subst e
+      have r := rng_oam hrb
+      exact oam_val_congr _ _ b r.1 r.2 hfl.1 hfl.2.1
+  · have : readEff h s a = s := by cases h <;> first | rfl | exact absurd rfl hh
+    rw [this]; exact ⟨rfl, rfl, rfl, rfl⟩
+
 end Tetro.BusFrame
